@@ -78,6 +78,12 @@ func runC03(r *core.Run) (bool, string) {
 		cps = append(cps, cp)
 		pkgs = append(pkgs, &gorun.Pkg{Name: cp.Name, Files: map[string]string{cp.Name + ".go": cp.Source}})
 	}
+	// what the body of a go statement's function literal consists of (rejected-or-faithful)
+	for part := 0; part < 2; part++ {
+		cp := gen.ConcurrentBodyShapesPackage(fmt.Sprintf("bodies%d", part), part)
+		cps = append(cps, cp)
+		pkgs = append(pkgs, &gorun.Pkg{Name: cp.Name, Files: map[string]string{cp.Name + ".go": cp.Source}})
+	}
 	// shipped concurrent examples are exercised too (spawn.go / locks.go / condvar.go are in unittest; they
 	// have no closed cases, so only generated programs are compared)
 	dir := filepath.Join(r.Scratch, "c03")
